@@ -1,7 +1,7 @@
 //! C05 — decoding untrusted input never panics or hangs (panic monitor; run on two builds).
 use crate::ctx::{guard, panic_site, Case, Ctx};
 use crate::gen::inputs;
-use crate::gen::rswords::{add_vanishing, add_with_roots, apply, pattern, random_root_set, valid_codeword};
+use crate::gen::rswords::{add_vanishing, add_virtual_error, add_with_roots, apply, pattern, random_root_set, valid_codeword};
 use crate::json::{hex, J};
 use crate::refimpl::cat::{self, Row, CAT};
 use crate::refimpl::dec::randomize_255;
@@ -16,6 +16,7 @@ use datamatrix::DataMatrix;
 /// data codeword stream through both data decoders
 pub fn eval_stream(ctx: &mut Ctx, cw: &[u8], tag: &'static str) {
     ctx.eval();
+    crate::ctx::trace_case(|| Case::new("dd").bytes("cw", cw).with("api", "decode_data").flat());
     let r1 = guard(|| decode_data(cw).is_ok());
     let r2 = guard(|| decode_str(cw).is_ok());
     for (api, r) in [("decode_data", &r1), ("decode_str", &r2)] {
@@ -38,6 +39,7 @@ pub fn eval_stream(ctx: &mut Ctx, cw: &[u8], tag: &'static str) {
 
 pub fn eval_word(ctx: &mut Ctx, r: &Row, word: &[u8], tag: &'static str) {
     ctx.eval();
+    crate::ctx::trace_case(|| Case::new("de").with("size", r.name).bytes("word", word).flat());
     let size = r.size;
     let mut w = word.to_vec();
     match guard(|| decode_error(&mut w, size).is_ok()) {
@@ -69,6 +71,7 @@ fn bits_hex(b: &[bool]) -> String {
 
 pub fn eval_pixels(ctx: &mut Ctx, bits: &[bool], width: usize, tag: &'static str) {
     ctx.eval();
+    crate::ctx::trace_case(|| Case::new("px").with("width", width).with("len", bits.len()).with("bits", bits_hex(bits)).with("api", "decode").flat());
     let r1 = guard(|| MatrixMap::<bool>::try_from_bits(bits, width).is_ok());
     let r2 = guard(|| DataMatrix::decode(bits, width).is_ok());
     let mut bad = false;
@@ -295,6 +298,34 @@ pub fn run(ctx: &mut Ctx) {
             }
         }
     }
+    // (c') error locations at and beyond the end of the block: every virtual position n..=254 of every block
+    let mut item = 0usize;
+    for r in CAT.iter() {
+        let rs = Rs::new(r.k());
+        for b in 0..r.blocks {
+            let n = r.block_positions(b).len();
+            for p in n..=254usize {
+                if ctx.mine(item) {
+                    for variant in 0..3 {
+                        let mut cw = valid_codeword(&mut ctx.rng, r, &rs, 3);
+                        let e = 1 + ctx.rng.below(255) as u8;
+                        add_virtual_error(r, &rs, &mut cw, b, p, e);
+                        if variant >= 1 {
+                            // plus genuine in-range errors in the same block (still within t in total)
+                            let t = r.k() / 2;
+                            let extra = if variant == 1 { 1 } else { t.saturating_sub(1).max(1) };
+                            let wts: Vec<usize> = (0..r.blocks).map(|x| if x == b { extra.min(t - 1) } else { 0 }).collect();
+                            let pat = pattern(&mut ctx.rng, r, &wts);
+                            cw = apply(&cw, &pat);
+                        }
+                        eval_word(ctx, r, &cw, "c.virtual_error_position_ge_n");
+                    }
+                }
+                item += 1;
+            }
+        }
+    }
+    ctx.exhaustive.insert("virtual_error_positions_n..=254_every_block_every_size".into(), true);
     // (d) pixels
     for w in 0..=150usize {
         if !ctx.mine(w) {
